@@ -322,11 +322,22 @@ class Gen:
             frames.append(fr)
         return dict(ev="recv", cid=cid, frames=frames)
 
-    def make_answer(self, wire):
+    def make_answer(self, wire, experimental=False):
+        """experimental: the answer reports its outcome in an Experimental-Result only (no Result-Code AVP), as the
+        answers of 3GPP applications do"""
         from diameter.message import Message
         m = Message.from_bytes(wire)
         a = m.to_answer()
-        a.result_code = 2001
+        if experimental:
+            from diameter.message.avp.grouped import ExperimentalResult
+            from diameter.message.avp import Avp
+            a.result_code = None
+            if hasattr(a, "experimental_result"):
+                a.experimental_result = ExperimentalResult(vendor_id=10415, experimental_result_code=5001)
+            else:
+                a.append_avp(Avp.new(297, value=[Avp.new(266, value=10415), Avp.new(298, value=5001)]))
+        else:
+            a.result_code = 2001
         a.origin_host = b"srv.example.net"
         a.origin_realm = b"example.net"
         if hasattr(m, "session_id") and m.session_id:
@@ -348,7 +359,7 @@ class Gen:
         i = self.rng.randrange(len(self.delivered))
         app, h, e, wire = self.delivered.pop(i)
         self.answered.append(wire)
-        return dict(ev="app_answer", app=app, msg=self.make_answer(wire))
+        return dict(ev="app_answer", app=app, msg=self.make_answer(wire, experimental=self.rng.random() < 0.2))
 
     def ev_bad_app_answer(self):
         # an answer for a request that was already answered, or that never existed
